@@ -249,8 +249,15 @@ def materialise(sc, plan, wrap_key=None):
         if kind == 'file':
             i = d['docs'][0]
             path = f'{base}/{tag}_doc{i}.yaml'
-            files[path] = emit.emit_doc(docs[i])
             where[i] = path
+            if d['seed'] % 7 == 3:
+                # the content is read from a copy kept elsewhere and *associated* with the name it goes by (filename=): file-relative
+                # things are relative to the associated name
+                phys = f'/other/copies/{tag}_doc{i}.yaml'
+                files[phys] = emit.emit_doc(docs[i])
+                calls.append({'path': phys, 'filename': path, 'raw_yaml': r.choice([None, False])})
+                continue
+            files[path] = emit.emit_doc(docs[i])
             calls.append({'path': _src_name(path, d['name_how']), 'raw_yaml': r.choice([None, False]), 'as_path': (d['seed'] + len(calls)) % 4 == 0})
             continue
         if kind in ('text_fn', 'stream'):
@@ -375,6 +382,23 @@ def lookup_model(files, inc_from, name):
     return None
 
 
+def _cwd_independent(sc, mat):
+    if any(v['form'] == 'cwd' for v in sc['ptoks'].values()):
+        return False
+    for c in mat['calls']:
+        nm = c.get('path') or c.get('filename')
+        if nm is None or not (nm.startswith('/') or nm.startswith('~')):
+            return False
+    if not mat['includes']:
+        return False
+    for i in mat['includes']:
+        if i['from'] is None:
+            return False
+        if posixpath.normpath(posixpath.join(posixpath.dirname(i['from']), expand_home(i['name']))) not in mat['files']:
+            return False
+    return True
+
+
 def expected_path(form, file_abs, tok):
     if form == '':
         base = CWD
@@ -444,7 +468,7 @@ def _child(files, calls, fs_faults, pre_calls, entry='builder', mid_build=None, 
     def add(b, c):
         if 'path' in c:
             # the name as a string or as a pathlib.Path (same spelling)
-            b.add_source(pathlib.Path(c['path']) if c.get('as_path') else c['path'], raw_yaml=c.get('raw_yaml'))
+            b.add_source(pathlib.Path(c['path']) if c.get('as_path') else c['path'], raw_yaml=c.get('raw_yaml'), **({'filename': c['filename']} if c.get('filename') else {}))
         elif 'text' in c:
             b.add_source(c['text'], raw_yaml=True, filename=c.get('filename'))
         else:
@@ -468,6 +492,8 @@ def _child(files, calls, fs_faults, pre_calls, entry='builder', mid_build=None, 
             fs.cwd = '/w/where_the_builder_was_created'      # the working directory that counts is the one at lookup time
             b = _custom_builder(Builder)()
             fs.cwd = CWD
+            if any(f.get('kind') == 'cwd_gone' for f in fs_faults):
+                fs.cwd_gone = True
             for c in pre_calls:
                 try:
                     add(b, c)
@@ -637,7 +663,23 @@ def execute(sc):
                     break
                 if not _check_paths(sc, mat, obs, res, label):
                     break
-                if all('path' in c for c in mat['calls']) and pi == 0 and not any(h == 'custom' for d in plan for h in d['file_dirs']):
+                if _cwd_independent(sc, mat):
+                    # nothing here needs the working directory (absolute source names, every include found next to the including
+                    # file): the build must not depend on it - not even on its existence
+                    ob6 = _run(mat, fs_faults=[{'kind': 'cwd_gone'}])
+                    st['runs'] += 1
+                    count(probes, 'working_directory_removed')
+                    for k_, n_ in ob6['fired'].items():
+                        count(st['faults'], k_, n_)
+                    if ob6['status'] != 'ok':
+                        res['violations'].append(core.violation('route.outcome', f'{label}: with the working directory removed (getcwd fails) the build fails at stage {ob6.get("stage")} although every file is named absolutely or '
+                                                                f'found next to the including file: {ob6["exc"]["type"]}: {ob6["exc"]["msg"][:400]}', ref='ok', stage=ob6.get('stage')))
+                        break
+                    if ob6['cfg'] != ref['cfg']:
+                        d = _first_diff(ob6['cfg'], ref['cfg'])
+                        res['violations'].append(core.violation('route.config', f'{label}: with the working directory removed the config differs at {d[0]}: {d[1]!r} vs {d[2]!r}', kinds='cwd_gone'))
+                        break
+                if all('path' in c and 'filename' not in c for c in mat['calls']) and pi == 0 and not any(h == 'custom' for d in plan for h in d['file_dirs']):
                     ob2 = _run(mat, entry='cmdline')
                     st['runs'] += 1
                     count(probes, 'entry:build_from_cmdline')
